@@ -53,7 +53,8 @@ Lemma setters_unchanged_partial :
 Proof.
   intros name s Hin Hopen. apply atomic_sound.
   pose proof all_atomic_but_open_true as H. unfold all_atomic_but_open in H.
-  rewrite forallb_forall in H. specialize (H _ Hin). simpl in H. rewrite Hopen in H. exact H.
+  rewrite forallb_forall in H. specialize (H _ Hin). cbn [fst snd] in H.
+  apply orb_true_iff in H as [H|H]; [congruence|exact H].
 Qed.
 
 Lemma refused_are_transcribed : names_in refused_anchored hand_scripts = true.
@@ -93,7 +94,8 @@ Lemma lsetters_unchanged_partial :
 Proof.
   intros name s Hin Hex. apply atomic_lenient_sound.
   pose proof all_lenient_but_excluded_true as H. unfold all_lenient_but_excluded in H.
-  rewrite forallb_forall in H. specialize (H _ Hin). simpl in H. rewrite Hex in H. exact H.
+  rewrite forallb_forall in H. specialize (H _ Hin). cbn [fst snd] in H.
+  apply orb_true_iff in H as [H|H]; [congruence|exact H].
 Qed.
 
 (* the two lists describe the same setters: the raising-mode script is the erasure of the lenient one *)
